@@ -179,11 +179,12 @@ class Program:
                     self._index(c, None, ns)
         elif k in ('CXXRecordDecl', 'ClassTemplateSpecializationDecl'):
             if o.get('completeDefinition') and o.get('name'):
-                rname = o['name']
+                if '_tmpl_name' not in o:
+                    o['_tmpl_name'] = o['name']
+                rname = o['_tmpl_name']
                 if k == 'ClassTemplateSpecializationDecl':
                     for a in targs_of(o):
                         rname += '_' + (str(a['value']).replace('-', 'm') if 'value' in a else sanitize(a.get('type', {}).get('qualType', 'T')))
-                    o['_tmpl_name'] = o['name']
                 o['name'] = rname
                 if rname not in self.records:
                     self.records[rname] = o
@@ -294,7 +295,7 @@ class Emitter:
         self.needed_records = OrderedDict()
         self.loops = []           # (cname, ordinal, header text)
         self.rule_hits = {}
-        self.macro_names = set(self.p.enum_const)
+        self.macro_names = set(self.p.enum_const) | set(self.p.globals)   # a local shadowing a global (possibly a #define'd constant) is renamed
         self.cur_fn = None
         self.local_ren = {}
         self.tmp_no = 0
@@ -1116,7 +1117,27 @@ class Emitter:
         hook = self.hooks.get('func_text')
         if hook:
             txt = hook(self, info, txt)
-        return self.proto(info) + '\n' + self.contracts.get(info['cname'], '') + txt
+        return self.proto(info) + '\n' + self.contract_text(info) + txt
+
+    def contract_text(self, info):
+        """contract clauses of a function; `$k` stands for its k-th parameter (1-based, `self` not counted), so that a contract
+        survives a renamed or unnamed parameter"""
+        c = self.contracts.get(info['cname'], '')
+        if '$' not in c:
+            return c
+        o = info['def'] or info['node']
+        names = []
+        for i, p in enumerate(params_of(o)):
+            nm = p.get('name', 'arg%d' % i)
+            if nm in self.macro_names:
+                nm = nm + '_l'
+            names.append(nm)
+        def sub(m):
+            k = int(m.group(1))
+            if k < 1 or k > len(names):
+                raise Drift('contract of %s refers to parameter $%d but the function has %d parameters' % (info['cname'], k, len(names)))
+            return names[k - 1]
+        return re.sub(r'\$(\d+)', sub, c)
 
     def ctor_inits(self, info, o):
         out = ''
@@ -1148,10 +1169,24 @@ class Emitter:
         d = self.decl(o['type'], name)
         if init and not (init[0]['kind'] == 'CXXConstructExpr' and not init[0].get('inner')):
             if const:
+                m = re.match(r'^const (.*?)\[(\d+)\]$', q.strip())
+                if m and self._scalar(m.group(1)) and self._has_call(init[0]):
+                    # compile-time array whose elements are computed by constexpr calls: the values the real compiler computes
+                    self.hit('constexpr array with computed elements -> values from the constant printer')
+                    self.const_placeholders[name] = o
+                    n = int(m.group(2))
+                    return 'static ' + d + ' = {' + ', '.join('(%s)(@@CONST:%s[%d]@@)' % (self.ctype_s(m.group(1)), name, i) for i in range(n)) + '};\n'
                 return 'static ' + d + ' = ' + self.init(init[0]) + ';\n'
             self.mutable_inits[name] = (o, self.init(init[0]))
             return d + ' = ' + self.init(init[0]) + ';\n'
         return d + ';\n'
+
+    def _has_call(self, n):
+        if not isinstance(n, dict):
+            return False
+        if n.get('kind') in ('CallExpr', 'CXXMemberCallExpr', 'CXXOperatorCallExpr', 'CXXConstructExpr'):
+            return True
+        return any(self._has_call(c) for c in n.get('inner', []))
 
     def _scalar(self, q):
         q = q.replace('const ', '').strip()
@@ -1211,7 +1246,7 @@ class Emitter:
             emit_g(g)
         protos = []
         for cn, (info, has) in done.items():
-            protos.append(self.proto(info) + ('\n' + self.contracts.get(cn, '') if not has else '') + ';\n')
+            protos.append(self.proto(info) + ('\n' + self.contract_text(info) if not has else '') + ';\n')
         # records: emit those needed, in dependency order (fields may need other records)
         rec_out = OrderedDict()
 
@@ -1308,13 +1343,13 @@ class Emitter:
 
     # ------------------------------------------------------------------ compile-time constants
     def resolve_consts(self, text):
-        names = re.findall(r'@@CONST:(\w+)@@', text)
+        names = re.findall(r'@@CONST:(\w+(?:\[\d+\])?)@@', text)
         if not names:
             return text
         names = list(OrderedDict.fromkeys(names))
         vals = const_values(self.p, names)
         self.const_values = vals
-        return re.sub(r'@@CONST:(\w+)@@', lambda m: vals[m.group(1)], text)
+        return re.sub(r'@@CONST:(\w+(?:\[\d+\])?)@@', lambda m: vals[m.group(1)], text)
 
 
 _CONST_CACHE = {}
@@ -1325,19 +1360,20 @@ def const_values(prog, names):
     need = [n for n in names if n not in _CONST_CACHE]
     if need:
         quals = {}
-        mangled = [prog.globals[n].get('mangledName', n) for n in need]
+        base = lambda n: n.split('[')[0]
+        idx = lambda n: ('[' + n.split('[')[1]) if '[' in n else ''
+        mangled = [prog.globals[base(n)].get('mangledName', base(n)) for n in need]
         dem = subprocess.run(['c++filt'] + mangled, capture_output=True, text=True).stdout.split('\n')
         for n, d in zip(need, dem):
-            quals[n] = d.strip() if '::' in d else 'engine::' + n
-        files = sorted({prog.globals[n]['loc'].get('file') or prog.globals[n]['loc'].get('includedFrom', {}).get('file')
-                        or '' for n in need} - {''})
+            d = d.strip().replace('(anonymous namespace)::', '')
+            quals[n] = (d if '::' in d else 'engine::' + base(n)) + idx(n)
         # AST 'loc.file' is only present on the first decl of a file in clang's JSON; fall back to all engine headers
         hdrs = sorted(f for f in os.listdir(os.path.join(REPO, 'engine')) if f.endswith('.h'))
         src = ['#include <cstdio>\n'] + ['#include "%s"\n' % h for h in hdrs]
         src.append('int main(){\n')
         for n in need:
-            o = prog.globals[n]
-            q = qt(o['type']).replace('const ', '').strip()
+            o = prog.globals[base(n)]
+            q = re.sub(r'\[\d+\]', '', qt(o['type']).replace('const ', '')).strip()
             if q in ('double', 'float'):
                 src.append('  printf("%s %%a\\n", (double)(%s));\n' % (n, quals[n]))
             elif q.startswith('unsigned') or q in ('bool',) or q.split('::')[-1] in prog.enums:
@@ -1350,9 +1386,9 @@ def const_values(prog, names):
             # constants local to a .cpp (e.g. MAX_MOVES_TO_GO) are not visible through headers: include that TU
             cfile = os.path.join(td, 'c.cpp')
             text = ''.join(src)
-            tu_locals = [n for n in need if _defined_in_cpp(prog, n)]
+            tu_locals = [n for n in need if _defined_in_cpp(prog, base(n))]
             if tu_locals:
-                incl = sorted({_defined_in_cpp(prog, n) for n in tu_locals})
+                incl = sorted({_defined_in_cpp(prog, base(n)) for n in tu_locals})
                 text = ''.join('#include "%s"\n' % f for f in incl) + text
             open(cfile, 'w').write(text)
             inc = ['-I', os.path.join(REPO, 'engine')] + (['-I', CFG_DIR] if CFG_DIR else [])
